@@ -31,4 +31,16 @@ META = {
         "note": "Trusted / not modelled: time.AppendFormat and time.Parse. Trusted: Lean kernel, extractor.",
         "technique": "Lean 4 proof of the regenerated selection logic (bit arithmetic, case analysis); differential run with time texts as atoms",
     },
+    "C03": {
+        "text": "Proof: routing regenerated from dualWriter.Get/Entry.findWriter equals the documented routing for all severities, registries and configurations; the eleven configuring calls refine their documented meaning on the three lists for every call sequence on fresh and configured loggers (induction); writers outside the selected list get nothing and each selected one exactly one write; a LevelSettable destination is told the record's severity before its write. Tied by the translator and by random operation histories over six writer kinds.",
+        "design_ref": "DESIGN.md §7 C03",
+        "note": "Trusted: Lean kernel; extractor; Go interface identity of writers (the six harness kinds); os.Stdout/os.Stderr captured at newDualWriter time.",
+        "technique": "Lean 4 refinement proof (case analysis + induction over operation sequences) on regenerated routing; differential random histories",
+    },
+    "C13": {
+        "text": "Proof over the pipeline model (gate, regenerated routing, fan-out with the regenerated reaction condition): a call always returns; every selected destination gets exactly one attempt whatever the others do; at most one diagnostic per call, none for a warning or when the logger does not admit warnings, routed as a warning otherwise; no sticky state (a call depends on earlier failures only through the position in the failure schedule). Structural facts about LWs.Write/printOut are regenerated. Correspondence enumerates all 2^6 failure schedules per call.",
+        "design_ref": "DESIGN.md §7 C13",
+        "note": "Trusted: Lean kernel; extractor (structural facts: one loop without early exit in LWs.Write, tell->write->warn order in printOut); errors.Join; the recursion bound rests on the regenerated condition lvl != WarnLevel.",
+        "technique": "Lean 4 proof over a pipeline model with failure schedules (case analysis); exhaustive schedule enumeration in the correspondence",
+    },
 }
